@@ -286,7 +286,7 @@ pub fn run(args: &Args) {
     let mut part = Part::new("C14", "smoother", "seqx", "model_checking", &args.tier);
     part.rule = "every valid confirmation history (each tag confirmed once, by a single or by a multiple naming a still-unconfirmed tag; multiple flag and ack/nack free) for N tags and each start tag (smoother made by with_expected_delivery_tag; for start 1 and N<=4 also by new() and by Default); for N<=4 additionally every early-drop pattern of the returned iterators; plus every arbitrary sequence over tags 1..=N+1 x multiple x outcome to the stated depth (safety only). Non-trivial: history contains a multiple and a nack (valid part) / every arbitrary sequence.".into();
     let max_n = if thorough { 7 } else { 6 };
-    let starts: Vec<u64> = vec![1, 2, 1000, (1u64 << 32) + 1, u64::MAX - 8];
+    let starts: Vec<u64> = vec![0, 1, 2, 1000, (1u64 << 32) + 1, u64::MAX - 8];
     part.bounds.insert("max_tags".into(), json!(max_n));
     part.bounds.insert("start_tags".into(), json!(starts.iter().map(|s| s.to_string()).collect::<Vec<_>>()));
     part.bounds.insert("drop_patterns_upto_tags".into(), json!(4));
